@@ -284,7 +284,23 @@ class Merge(Expr):
             )
         else:
             result = tuple(on) in expr.unique_partition_mapping_columns_from_shuffle
-        return result
+        return result and self._hash_partitioning_intact(expr)
+
+    @staticmethod
+    def _hash_partitioning_intact(expr):
+        # A Repartition to fewer partitions keeps every key in one partition
+        # (which is all that groupby or drop_duplicates need), but it fuses
+        # neighbouring partitions: a key is no longer in partition
+        # ``hash(key) % npartitions``, where the shuffle of the other side of
+        # the join will put it.
+        stack = [expr]
+        while stack:
+            node = stack.pop()
+            if isinstance(node, Repartition):
+                return False
+            if node.unique_partition_mapping_columns_from_shuffle:
+                stack.extend(node.dependencies())
+        return True
 
     def _lower(self):
         # Lower from an abstract expression
